@@ -1459,6 +1459,8 @@ def translate_class(ctx, kinds):
             raise Untranslatable(ctx.file, it['line'], '%s: nested structure %s written without kmip_version' % (ctx.name, it['field']))
         wi = {'field': it['field'], 'tag': tag, 'kind': kind, 'lo': it['lo'], 'hi': it['hi'],
               'mult': it['mult'], 'test': it['test'], 'line': it['line']}
+        if any(c.get('converted') and (c['tag'], c['kind']) == (tag, kind) and c['lo'] < it['hi'] and it['lo'] < c['hi'] for c in cands):
+            wi['converted'] = True
         cnt = [c['counted'] for c in cands if c.get('counted')]
         if cnt:
             if it['mult'] != 'Many':
